@@ -278,13 +278,15 @@ theorem C02_no_loss_no_dup_tso (n : Int) (s : St) (h : Reachable step (init Fenc
     decline_spec s hi, cl1_assert_iff s hi⟩
 
 /-- **Both storage boundaries and the overflow guards under x86-TSO** (TSO analogue of
-`C02_abort_only_when_full` and of the store part of `C02_slot_accesses_in_bounds`; capacities
-`0 ≤ n`).  In every reachable state the bounds invariant `Bnd` holds: the logical window – and the
+`C02_abort_only_when_full` and of `C02_slot_accesses_in_bounds`; capacities `0 ≤ n`).  In every reachable state the bounds invariant `Bnd` holds: the logical window – and the
 owner's view of it while the shift entry of a re-centring is still buffered – lies inside
 `[0, size]`; the `myth_assert`s of the re-centring and insertion code hold (`offset < 0` in push,
-`offset > 0` in put, `t < size`, `b > 0`); every slot store of push / put / trypass goes to an index
-inside `[0, size)`; push's test `base == 0` (at `top == size`) and put's test `top == size` (at
-`base == 0`) fire exactly when the deque holds `size` elements. -/
+`offset > 0` in put, `t < size`, `b > 0`); every slot store of push / put / trypass / pop goes to an
+index inside `[0, size)`; push's test `base == 0` (at `top == size`) and put's test `top == size` (at
+`base == 0`) fire exactly when the deque holds `size` elements; the memory values of `base` and `top`
+stay inside `[0, ..)` / `(.., size]` at every moment – also in the middle of a re-centring, when
+they are a half-updated pair – so that every slot LOAD, including the one of the lock-free
+`myth_queue_peek` that may have read such a pair, is at an index inside `[0, size)`. -/
 theorem C02_bounds_tso (n : Int) (hn : 0 ≤ n) (s : St) (h : Reachable step (init FenceCfg.code n) s) :
     Bnd s ∧
     (0 ≤ s.lb ∧ s.lt ≤ s.size ∧ 0 ≤ s.lb + s.sh ∧ s.lt + s.sh ≤ s.size) ∧
@@ -294,14 +296,40 @@ theorem C02_bounds_tso (n : Int) (hn : 0 ≤ n) (s : St) (h : Reachable step (in
      (∀ e b, s.opc = .pt7 e b → 0 ≤ b - 1 ∧ b - 1 < s.size) ∧
      (∀ p e b, s.tpc p = .tp2 e b → 0 ≤ b - 1 ∧ b - 1 < s.size)) ∧
     ((∀ e, s.opc = .pub e → (viewBase s.bufO s.base = 0 ↔ (s.A.length : Int) = s.size)) ∧
-     (∀ e, s.opc = .pt2 e → (viewTop s.bufO s.top = s.size ↔ (s.A.length : Int) = s.size))) := by
+     (∀ e, s.opc = .pt2 e → (viewTop s.bufO s.top = s.size ↔ (s.A.length : Int) = s.size))) ∧
+    (0 ≤ s.base ∧ s.top ≤ s.size) ∧
+    ((∀ p b, s.tpc p = .pk3 b → 0 ≤ b ∧ b < s.size) ∧
+     (∀ p b x, s.tpc p = .tk3 b x → 0 ≤ b ∧ b < s.size) ∧
+     (∀ p b, s.tpc p = .wk3 b → 0 ≤ b ∧ b < s.size) ∧
+     (∀ p b, s.tpc p = .vk3 b → 0 ≤ b ∧ b < s.size) ∧
+     (∀ t x, s.opc = .po3 t x → 0 ≤ t ∧ t < s.size) ∧
+     (∀ t x, s.opc = .po5 t x → 0 ≤ t ∧ t < s.size) ∧
+     (∀ t r, s.opc = .po5b t r → 0 ≤ t ∧ t < s.size)) := by
   obtain ⟨hi, hb⟩ := reachable_bnd n hn s h
   have hlen := hi.len
   have h0 := hb.lb0
   have h1 := hb.lts
   have h2 := hb.lbv
   have h3 := hb.ltv
-  refine ⟨hb, ⟨h0, h1, h2, h3⟩, ⟨?_, ?_⟩, ⟨?_, ?_, ?_⟩, abort_iff_full s hi hb⟩
+  refine ⟨hb, ⟨h0, h1, h2, h3⟩, ⟨?_, ?_⟩, ⟨?_, ?_, ?_⟩, abort_iff_full s hi hb, ⟨hb.base0, hb.tops⟩,
+    hb.pk3, ?_, ?_, ?_, ?_, hb.po5, hb.po5b⟩
+  rotate_left 5
+  · intro p b x hpc
+    have := hi.tk3 p b x hpc
+    have := hb.tk3 p b x hpc
+    omega
+  · intro p b hpc
+    obtain ⟨e1, _, e3, _⟩ := hi.wk3 p b hpc
+    have : 0 < s.A.length := List.length_pos_iff.2 e3
+    omega
+  · intro p b hpc
+    have := hi.vk3 p b hpc
+    have := hb.vk3 p b hpc
+    omega
+  · intro t x hpc
+    have := hi.po3 t x hpc
+    have := hb.po3 t x hpc
+    omega
   · intro e off hpc
     obtain ⟨hv, _⟩ := (owner_views s hi).2.2.2.1 e off hpc
     have := hb.pum e off hpc
